@@ -58,8 +58,19 @@ def translate(ctx):
 
 # ------------------------------------------------------------------ in-process correspondence
 
+def build_gama_retry(ctx, **kw):
+    """several builders share /verif/build; a concurrent run on another tree may prune the directory mid-build"""
+    for attempt in range(3):
+        try:
+            return ctx.build_gama(**kw)
+        except BuildError as e:
+            if attempt == 2 or "No such file or directory" not in e.log:
+                raise
+            time.sleep(3 + 5 * attempt)
+
+
 def build_harness(ctx):
-    d = ctx.build_gama(sanitize=True)
+    d = build_gama_retry(ctx, sanitize=True)
     objs = sorted(str(p) for p in (d / "CMakeFiles" / "libgama.dir").rglob("*.o"))
     if not objs:
         raise BuildError("c14_revise", "no libgama objects under " + str(d))
@@ -173,7 +184,7 @@ def spec_expectation(net):
         if "z" in P[pid]:
             g.add("z")
         removed[pid] = g
-    active, outl = [], []
+    active, outl, active_rev = [], [], []
     for ci, o in enumerate(net["obs"]):
         if o["kind"] == "obs":
             fl = []
@@ -186,6 +197,7 @@ def spec_expectation(net):
                     return [a and it["t"] != "direction" for it, a in zip(o["items"], fl)]
                 return fl
             fl = rule(fl)
+            active_rev.append(list(fl))
             for k, it in enumerate(o["items"]):
                 if fl[k] and it.get("blunder") is not None and it["blunder"] > 1:
                     fl[k] = False
@@ -194,23 +206,33 @@ def spec_expectation(net):
             active.append(fl)
         elif o["kind"] == "hdiffs":
             active.append([it["from"] not in unusable and it["to"] not in unusable for it in o["items"]])
+            active_rev.append(active[-1])
         elif o["kind"] == "vectors":
             fl = []
             for it in o["items"]:
                 a = it["from"] not in unusable and it["to"] not in unusable
                 fl += [a, a, a]
             active.append(fl)
+            active_rev.append(fl)
         else:
             active.append(None)
-    return {"removed_points": removed, "active": active, "outlying": outl}
+            active_rev.append(None)
+    return {"removed_points": removed, "active": active, "active_rev": active_rev, "outlying": outl}
 
 
 # ------------------------------------------------------------------ end-to-end on gama-local
 
 def run_gama(gama, path, alg, out_prefix):
     txt, xml = str(out_prefix) + ".txt", str(out_prefix) + ".xml"
-    rc, out, err = sh([str(gama / "gama-local"), str(path), "--algorithm", alg, "--language", "en",
-                       "--text", txt, "--xml", xml], timeout=120)
+    for attempt in range(4):
+        try:      # the shared build directory may be relinked by a concurrent check at this very moment
+            rc, out, err = sh([str(gama / "gama-local"), str(path), "--algorithm", alg, "--language", "en",
+                               "--text", txt, "--xml", xml], timeout=120)
+            break
+        except OSError:
+            if attempt == 3:
+                raise
+            time.sleep(2 + 3 * attempt)
     t = Path(txt).read_text(errors="replace") if Path(txt).exists() else ""
     x = Path(xml).read_text(errors="replace") if Path(xml).exists() else ""
     return rc, t, x, err
@@ -300,23 +322,27 @@ def oracle_one(ctx, gama, work, net, res, algs):
     # the code's verdicts against the specification derived from the injected defects
     spec_ok = all(a is not None for a in spec["active"]) and len(spec["active"]) == len(keep)
     if spec_ok:
-        for ci, (a, k) in enumerate(zip(spec["active"], keep)):
+        keep_rev = [[c == "1" for c in cl] for cl in before["obs"]]
+        stages = list(zip(spec["active_rev"], keep_rev)) + list(zip(spec["active"], keep))
+        for sj, (a, k) in enumerate(stages):
+            ci = sj % len(keep)
             if list(a) != list(k):
                 o = net["obs"][ci]
                 bad = [j for j in range(len(a)) if a[j] != k[j]]
                 j = bad[0]
                 it = o["items"][j] if o["kind"] == "obs" else o["items"][j // 3 if o["kind"] == "vectors" else j]
-                if it.get("blunder") is not None:
+                if it.get("blunder") is not None and sj >= len(keep):
                     what = (f"abs-term: observation with positional misclosure {it['blunder']}*tol-abs "
                             f"(stdev {it.get('stdev')}, sigma-apr {net['params']['sigma-apr']}) is "
                             + ("kept" if k[j] else "removed") + ", expected " + ("removed" if k[j] else "kept"))
-                    site = "LocalNetwork::remove_huge_abs_terms"
+                    site = "LocalNetwork::test_abs_term"
+                    obsinfo = {"t": it["t"], "f": it["blunder"], "stdev": it.get("stdev"), "verdict": "kept" if k[j] else "removed"}
                 else:
                     what = (f"revision: observation {it.get('t', o['kind'])} {o.get('from', it.get('from'))}->"
                             f"{it.get('to', it.get('bs'))} is " + ("active" if k[j] else "passive") + ", the property says "
                             + ("excluded" if k[j] else "kept"))
                     site = "LocalNetwork::revision_observations"
-                fails.append((what, site, f"cluster {ci} expected {a} got {k}"))
+                fails.append((what, site, f"cluster {ci} expected {a} got {k}" + (" ;obs=" + json.dumps(obsinfo) if site.endswith("abs_term") else "")))
                 break
     # (b) every point made unused is recorded with a reason (in-process list)
     removed_ids = {ids[int(x.split(":")[0]) - 1] if int(x.split(":")[0]) <= len(ids) else x for x in final.get("removed", [])}
@@ -392,7 +418,7 @@ def gen_nets(ctx, n_rev, n_e2e):
             j = json.loads(f.read_text())
             nets.append((j["net"], j.get("acord", True), True))
     fams = [["isolated"], ["one_element"], ["single_dir"], ["dup_dir"], ["unknown_to"], ["blunder"], ["blunder2"],
-            ["blunder_w"], ["blunder_w"], ["isolated", "single_dir", "blunder2"], []]
+            ["blunder_w"], ["blunder_w"], ["angle_fs_missing"], ["zangle_mid"], ["isolated", "single_dir", "blunder2"], []]
     for k in range(n_e2e):
         want = fams[k] if k < len(fams) else None
         nets.append((c14_nets.make_case(ctx.rng, want=want), True, True))
@@ -403,7 +429,7 @@ def gen_nets(ctx, n_rev, n_e2e):
 
 def check_nets(ctx, corr, nets, algs, label="net"):
     exe = build_harness(ctx)
-    gama = ctx.build_gama(sanitize=False, targets=("gama-local",))
+    gama = build_gama_retry(ctx, sanitize=False, targets=("gama-local",))
     work = Work(ctx)
     try:
         res = run_inprocess(ctx, exe, work, [(n, a) for n, a, _ in nets])
@@ -464,7 +490,8 @@ def search(ctx, broken, corr):
     """something no longer checks: look harder on the implementation with the spec oracle (targeted families first)"""
     c2 = Corr()
     nets = [(c14_nets.boundary_case(op=op), True, True) for op in ("eq", "above", "below")]
-    fams = [["dup_dir"], ["single_dir"], ["isolated"], ["one_element"], ["blunder"], ["blunder2"], ["unknown_to"]]
+    fams = [["dup_dir"], ["single_dir"], ["isolated"], ["one_element"], ["blunder"], ["blunder2"], ["unknown_to"],
+            ["angle_fs_missing"], ["blunder_w"], ["zangle_mid"]]
     for k in range(ctx.size(140, 600)):
         dim = 3 if k % 3 == 2 else None
         nets.append((c14_nets.make_case(ctx.rng, want=fams[k % len(fams)] + (["blunder"] if k % 2 else []), dim=dim), True, True))
@@ -473,20 +500,39 @@ def search(ctx, broken, corr):
 
 
 def classify(ctx, failure):
-    """C14-F1: test_abs_term consults the homogenised vector b: an observation whose stdev differs from sigma-apr
-    gets its absolute term scaled by sigma-apr/stdev before the comparison with tol-abs"""
-    if failure.what.startswith("abs-term:"):
-        net = failure.replay.get("net", {})
-        m0 = float(net.get("params", {}).get("sigma-apr", 10))
-        for b in net.get("blunders", []):
-            sd = b.get("stdev")
-            if sd is None or float(sd) == m0:
-                continue
-            f = b["f"] * m0 / float(sd)
-            if (b["f"] > 1) != (f > 1):
-                return "C14-F1"
-        # a kept outlier because the gate (unscaled) and the removal (scaled) disagree is the same finding
-    return None
+    """C14-F1 (LocalNetwork::test_abs_term compares the homogenised term b with tol-abs instead of rhs_).
+    Signature, evaluated on the failing network itself: the failure is an abs-term verdict on an angular
+    observation whose stdev differs from sigma-apr, the verdict is the one the scaled term predicts
+    (f*sigma-apr/stdev instead of f), and the failure DISAPPEARS when nothing but that observation's stdev is
+    set to sigma-apr (its positional misclosure does not depend on the weight)."""
+    if not (failure.what.startswith("abs-term:") and ";obs=" in failure.detail):
+        return None
+    o = json.loads(failure.detail.split(";obs=", 1)[1])
+    net = failure.replay.get("net", {})
+    m0 = float(net.get("params", {}).get("sigma-apr", 10))
+    if o["t"] not in ("direction", "angle", "azimuth", "z-angle") or o.get("stdev") is None or float(o["stdev"]) == m0:
+        return None
+    scaled = o["f"] * m0 / float(o["stdev"])
+    if not ((o["verdict"] == "kept" and o["f"] > 1 and scaled <= 1) or (o["verdict"] == "removed" and o["f"] <= 1 and scaled > 1)):
+        return None
+    # behavioural part: same network, every blundered angular observation weighted with sigma-apr
+    net2 = json.loads(json.dumps(net))
+    for st in net2["obs"]:
+        if st["kind"] == "obs":
+            for it in st["items"]:
+                if it.get("blunder") is not None and it["t"] in ("direction", "angle", "azimuth", "z-angle"):
+                    it["stdev"] = m0
+    for b in net2.get("blunders", []):
+        if b["t"] in ("direction", "angle", "azimuth", "z-angle"):
+            b["stdev"] = m0
+    c = Corr()
+    try:
+        check_nets(ctx, c, [(net2, failure.replay.get("acord", True), True)], ALGS[:1])
+    except BuildError:
+        return None
+    if c.failures or c.disagreements:
+        return None
+    return "C14-F1"
 
 
 def explained_by_known(ctx, broken_item, matched_ids):
